@@ -68,6 +68,9 @@ kind_of_msg(const char *m)
     if (PFX("Invalid union value") || PFX("Invalid LYB union value - no matching")) return "NoMember";
     if (PFX("Invalid LYB union")) return "LybSize";
     if (PFX("Unsatisfied pattern")) return "Pattern";
+    if (PFX("Invalid Base64 character")) return "B64Char";
+    if (PFX("Base64 encoded value length must be divisible by 4")) return "B64Len";
+    if (PFX("Newlines are expected every 64 Base64 characters")) return "B64Newline";
     if (PFX("Invalid date-and-time month")) return "DtMonth";
     if (PFX("Invalid date-and-time day of month")) return "DtDay";
     if (PFX("Invalid date-and-time hours")) return "DtHour";
@@ -418,6 +421,15 @@ render_type(const char *d, struct rctx *rc)
     }
     if (hl == 4 && !strncmp(d, "bool", 4)) {
         sb_add(&buf, &len, "type boolean;");
+        return buf;
+    }
+    if (hl == 3 && !strncmp(d, "bin", 3)) {
+        sb_add(&buf, &len, "type binary");
+        if (colon) {
+            sb_add(&buf, &len, " {");
+            if (render_parts(colon + 1, 0, &buf, &len, "length")) { free(buf); return NULL; }
+            sb_add(&buf, &len, " }");
+        } else sb_add(&buf, &len, ";");
         return buf;
     }
     if (hl == 3 && !strncmp(d, "str", 3)) {
